@@ -145,7 +145,13 @@ def e_interface(c):
 def e_mean(c):
     kw = {}
     if c.rng.random() < 0.5:
-        kw['P'] = c.own([c.rng.uniform(0.1, 1.0, k) for k in c.n])
+        u = c.rng.random()
+        if u < 0.5:
+            kw['P'] = c.own([c.rng.uniform(0.1, 1.0, k) for k in c.n])
+        elif u < 0.8:
+            kw['P'] = c.own([c.rng.uniform(0.1, 1.0, max(c.n) + 1) for k in c.n])       # rows longer than the mode (only the head is used)
+        else:
+            kw['P'] = c.own(c.rng.uniform(0.1, 1.0, (len(c.n), max(c.n))))              # one rectangular table
     if c.rng.random() < 0.5:
         kw['norm'] = bool(c.rng.integers(0, 2))
     return Call('mean', teneva.mean, [c.tt()], kw)
@@ -659,7 +665,10 @@ def e_ind_to_poi(c):
     d = len(c.n)
     a, b = _box(c, d)
     nn = [k + 1 for k in c.n]
-    I = c.own(np.stack([c.rng.integers(0, k, 4) for k in nn], axis=1))
+    I = np.stack([c.rng.integers(0, k, 4) for k in nn], axis=1)
+    if c.rng.random() < 0.3:
+        I = I.astype(float) + (0.5 if c.rng.random() < 0.5 else 0.0)       # float-typed (possibly fractional) indices
+    I = c.own(I)
     if c.rng.random() < 0.3:
         I = c.own(I[0].copy())
     return Call('ind_to_poi', teneva.ind_to_poi, [I, a, b, _pick(c, [c.own(nn), c.own(np.array(nn))])],
@@ -1001,6 +1010,7 @@ def e_anova_from_file(c):
     owner_seed = int(c.rng.integers(1 << 30))
     use_owner = bool(c.rng.integers(0, 2))
     seed = c.seed()
+    box = {}
 
     def fn():
         # a model is built and saved by some earlier owner (with its own seed, possibly after it drew from its generator),
@@ -1012,6 +1022,9 @@ def e_anova_from_file(c):
             if use_owner:
                 owner.cores(r)
             owner.save(path)
+            restored = teneva.ANOVA(fpath=path, order=order, seed=owner_seed)
+            pts = np.array([[0] * len(c.n)])
+            box['restored'] = [restored(pts), restored(pts), restored(pts[0]), owner(pts), owner(pts[0])]
             return teneva.anova(None, None, r, order, noise, seed=seed, fpath=path)
         finally:
             try:
@@ -1022,12 +1035,19 @@ def e_anova_from_file(c):
 
     def check(res):
         import copy as _copy
-        twin_seed = _copy.deepcopy(c.seed_twin) if getattr(c, 'seed_twin', None) is not None else seed
-        ref = teneva.anova(I, y, r, order, noise, seed=twin_seed)
+        rr = box.get('restored')
+        if rr is not None:
+            if np.asarray(rr[0]).tobytes() != np.asarray(rr[1]).tobytes():
+                return 'evaluating an ANOVA object restored from a file twice at the same multi-index gives two different results'
+            if np.asarray(rr[0]).tobytes() != np.asarray(rr[3]).tobytes() or float(rr[2]) != float(rr[4]):
+                return 'an ANOVA object restored from a file evaluates differently from the object that was saved'
+        if not isinstance(seed, int):
+            return None
+        ref = teneva.anova(I, y, r, order, noise, seed=seed)
         if len(ref) != len(res) or any(a.shape != b.shape or a.tobytes() != b.tobytes() for a, b in zip(ref, res)):
             return 'anova(fpath=<saved model>, seed=s) differs from anova(I_trn, y_trn, seed=s) for the same data and seed'
         return None
-    return Call('anova_from_file', fn, [], {}, seed_kw=None, check=check if isinstance(seed, int) else None)
+    return Call('anova_from_file', fn, [], {}, seed_kw=None, check=check)
 
 
 @entry()
@@ -1038,8 +1058,14 @@ def e_ANOVA(c):
     pts = c.idx(3)
 
     def post(obj):
-        return [obj.cores(r=r), obj(pts), obj(pts[0])]
-    return Call('ANOVA', teneva.ANOVA, [I, y], {'order': order, 'seed': c.seed()}, seed_kw='seed', post=post)
+        return [obj.cores(r=r), obj(pts), obj(pts[0]), obj.sample(), obj.sample(with_square=True)]
+
+    def check(obj):
+        a, b = obj(pts), obj(pts)
+        if np.asarray(a).tobytes() != np.asarray(b).tobytes():
+            return 'evaluating an ANOVA object twice at the same multi-indices gives two different results'
+        return None
+    return Call('ANOVA', teneva.ANOVA, [I, y], {'order': order, 'seed': c.seed()}, seed_kw='seed', post=post, check=check)
 
 
 def _trn_func(c, d):
@@ -1208,6 +1234,36 @@ def e_als(c):
     return Call('als', teneva.als, [I, y, Y0], kw, mutable=mutable, defaults_dict=dd, reset=reset)
 
 
+@entry(name='als_swap_default_info')
+def e_als_swap(c):
+    # rank-adaptive als with the experimental mode swap, progress record left at its default
+    n = [int(c.rng.integers(2, 5))] * int(c.rng.integers(3, 5))
+    m = int(c.rng.integers(20, 60))
+    I = np.stack([c.rng.integers(0, k, m) for k in n], axis=1)
+    I = np.vstack([I, np.array([[j] * len(n) for j in range(n[0])])])
+    y = np.sin(I @ np.arange(1, len(n) + 1)) + 0.1 * c.rng.standard_normal(len(I))
+    Iv = np.stack([c.rng.integers(0, k, 6) for k in n], axis=1)
+    yv = np.sin(Iv @ np.arange(1, len(n) + 1))
+    Y0 = c.tt_shape(n, 1)
+    return Call('als', teneva.als, [c.own(I), c.own(y), c.own(Y0)], {'nswp': 2, 'r': int(c.rng.integers(2, 4)), 'allow_swap': True,
+                                                                      'I_vld': c.own(Iv), 'y_vld': c.own(yv)}, defaults_dict='info')
+
+
+@entry(name='als_vld_default_info')
+def e_als_vld(c):
+    # constant-rank als with a validation set and an e_vld stop, progress record left at its default
+    n = [int(c.rng.integers(2, 5))] * int(c.rng.integers(3, 5))
+    m = int(c.rng.integers(20, 60))
+    I = np.stack([c.rng.integers(0, k, m) for k in n], axis=1)
+    I = np.vstack([I, np.array([[j] * len(n) for j in range(n[0])])])
+    y = np.sin(I @ np.arange(1, len(n) + 1))
+    Iv = np.stack([c.rng.integers(0, k, 8) for k in n], axis=1)
+    yv = np.sin(Iv @ np.arange(1, len(n) + 1))
+    Y0 = c.tt_shape(n, 2)
+    return Call('als', teneva.als, [c.own(I), c.own(y), c.own(Y0)], {'nswp': 4, 'I_vld': c.own(Iv), 'y_vld': c.own(yv), 'e_vld': float(_pick(c, [1e-3, 0.3]))},
+                defaults_dict='info')
+
+
 @entry(weight=3)
 def e_als_func(c):
     n = _eqshape(c)
@@ -1265,4 +1321,4 @@ def uncatalogued():
 
 
 # composite entries that are not names of exported callables
-COMPOSITE = ['anova_from_file']
+COMPOSITE = ['anova_from_file', 'als_swap_default_info', 'als_vld_default_info']
